@@ -1,6 +1,8 @@
 package main
 
 import (
+	"context"
+	"sync"
 	"regexp"
 	"encoding/json"
 	"flag"
@@ -18,6 +20,8 @@ import (
 )
 
 const verifDir = "/verif"
+
+var crossInfo map[string]interface{}
 
 // outDir: where evidence, replay files and scratch queries go; GOVC_OUT redirects them (used
 // when a check is run against a scratch copy of the repository, e.g. for seeded changes, so
@@ -254,6 +258,65 @@ func cmdCheck(args []string) int {
 			}
 		}
 	}
+	// thorough tier: every discharged obligation is re-checked by a second, different solver
+	// (a disagreement makes the run UNDECIDED; an obligation only one solver can do is reported)
+	var crossOK, crossNo int
+	var crossBad []string
+	if *tier == "thorough" {
+		var mu sync.Mutex
+		var wg sync.WaitGroup
+		sem := make(chan struct{}, 8)
+		for _, j := range plain {
+			if j.o.res != "unsat" || j.o.solver == "trivial" || j.o.goal == "true" {
+				continue
+			}
+			wg.Add(1)
+			sem <- struct{}{}
+			go func(j job) {
+				defer wg.Done()
+				defer func() { <-sem }()
+				var q string
+				if j.o.ground {
+					q = j.u.queryStage(j.o, j.extra, false, true, 2)
+				} else {
+					q = j.u.query(j.o, j.extra, false)
+				}
+				mu.Lock()
+				d.n++
+				qf := filepath.Join(work, fmt.Sprintf("x%05d.smt2", d.n))
+				mu.Unlock()
+				os.WriteFile(qf, []byte(q), 0644)
+				defer os.Remove(qf)
+				var others []solverSpec
+				for _, sp := range solvers {
+					if !strings.HasPrefix(j.o.solver, sp.name+" ") && j.o.solver != sp.name {
+						others = append(others, sp)
+					}
+				}
+				dd := &discharger{seed: seed + 7}
+				res, name, _, secs := dd.race(context.Background(), others, qf, 60000)
+				mu.Lock()
+				d.solverT += secs
+				switch res {
+				case "unsat":
+					crossOK++
+					j.o.second = name
+				case "sat":
+					if j.o.ground {
+						crossBad = append(crossBad, j.o.name+" ("+j.o.solver+": unsat, "+name+": sat)")
+					} else {
+						crossNo++ // a model for a quantified query is not a refutation of the instance-based proof
+					}
+				default:
+					crossNo++
+				}
+				mu.Unlock()
+			}(j)
+		}
+		wg.Wait()
+		fmt.Printf("thorough: %d obligations re-checked by a second solver, %d could only be done by one, %d disagreements\n", crossOK, crossNo, len(crossBad))
+	}
+	crossInfo = map[string]interface{}{"second_solver_agrees": crossOK, "only_one_solver_succeeded": crossNo, "disagreements": crossBad}
 	if len(withKF) > 0 {
 		dk := &discharger{dir: work, seed: seed, timeoutMs: 3000, retryMs: 3000, par: 8}
 		dk.all(withKF)
@@ -364,6 +427,12 @@ func cmdCheck(args []string) int {
 		}
 		fmt.Printf("  obligation %s (%s) at %s: %s\n  clause: %s\n", j.o.name, j.o.res, j.o.pos, j.o.kind, j.o.clause)
 		exit = 1
+	}
+	if len(crossBad) > 0 {
+		fmt.Printf("UNDECIDED property=%s reason=solvers disagree on %s\n", id, strings.Join(crossBad, ", "))
+		if exit == 0 {
+			exit = 2
+		}
 	}
 	if len(vacuous) > 0 {
 		fmt.Printf("UNDECIDED property=%s reason=vacuous contract (unsatisfiable precondition or unreachable return): %s\n", id, strings.Join(vacuous, ", "))
